@@ -10,7 +10,7 @@ RULE = ('C01 DAG generator biased to duplication (fresh equal instances across p
         'reference executed set, each once; submit_task(use_cache=True) calls == reference loaded set, each once; nothing '
         'submitted or executed outside the requested closure or only below cached tasks; every caller-side instance among '
         'the requested tasks and (recursively) the parameters of executed tasks has result_meta set iff its node '
-        'succeeded, and equal instances agree. Engine "after-abort": a run that aborts (continue_on_failure=False, more ready tasks than '
+        'succeeded, and equal instances agree. Engine "two-runs": a second call on the same Lab (or a new Lab sharing the Storage object; LocalStorage and FsspecStorage) must load what the first cached. Engine "after-abort": a run that aborts (continue_on_failure=False, more ready tasks than '
         'workers) followed by a second run on the SAME Lab requesting something else - that second run must touch nothing outside its '
         'own closure. Non-trivial = at least one duplicate equal instance AND (non-empty proper '
         'pre-cached subset OR a cached node with an uncached dependency). Distinct = hash of (engine, spec).')
@@ -61,11 +61,34 @@ def check_after_abort(spec: dict) -> core.CaseResult:
     return dagprop.result(obs, findings, obs.outcome == 'raise', labels, prop='C03')
 
 
+def check_two_runs(spec: dict) -> core.CaseResult:
+    """A second run_tasks call on the same Lab object (or a new Lab sharing the Storage object), nothing busted: what the first call
+    cached is loaded, nothing of it is executed again, nothing below a cached task is touched."""
+    from pbt import dagrun
+    second = spec['second']
+    obs = dagrun.execute_case(spec, second=second)
+    ex1 = oracles.expect_for(spec, obs)
+    # the result_meta clauses look at the live task objects, which by now carry the marks of BOTH calls: not judged here
+    meta_clauses = ('C03:instances-disagree-on-result_meta', 'C03:instance-not-marked-with-result_meta', 'C03:failed-task-instance-has-result_meta')
+    findings = [f for f in oracles.c03_once_only_if_needed(spec, obs, ex1) if f.signature not in meta_clauses]
+    nt = False
+    if obs.second is not None and obs.outcome == 'return' and obs.second.outcome == 'return':
+        ex2 = oracles.expect_second(spec, obs, ex1, second)
+        nt = bool(ex2.loaded)
+        for f in oracles.c03_once_only_if_needed(spec, obs.second, ex2):
+            if f.signature in meta_clauses:
+                continue
+            findings.append(core.Finding(f.signature.replace('C03:', 'C03:second-run:'), f.detail))
+    labels = [f'backend={spec["lab"]["backend"]}', 'two-runs', f'storage={spec["lab"]["storage"]}', f'second:same_lab={second.get("same_lab")}']
+    return dagprop.result(obs, findings, nt, labels, prop='C03')
+
+
 def plan(tier: str) -> list[dict]:
     q = tier == 'quick'
     jobs = list(dagprop.std_plan(tier, controlled=(10, 150, 2500), serial=(1, 60, 1200), fork=(2, 25, 500), spawn=(1, 6, 120))) + dagprop.exhaustive_jobs(tier, 4)
     jobs += [{'engine': 'after-abort:fork', 'n': 20 if q else 500, 'hashseed': 3}, {'engine': 'after-abort:spawn', 'n': 5 if q else 80, 'hashseed': 4},
              {'engine': 'after-abort:controlled', 'n': 60 if q else 2000, 'hashseed': 5}]
+    jobs += [{'engine': 'two-runs:fork', 'n': 16 if q else 400, 'hashseed': 6}, {'engine': 'two-runs:serial', 'n': 60 if q else 1500, 'hashseed': 7}]
     return jobs
 
 
@@ -74,6 +97,14 @@ def run_job(rec: core.Recorder, job: dict, seed: int) -> None:
         dagprop.run_exhaustive_job(rec, job, judge_obs, failing=False, cached=True)
         return
     eng = job['engine']
+    if eng.startswith('two-runs:'):
+        from hypothesis import strategies as st
+        b = eng.split(':')[1]
+        strat = st.builds(lambda sp, same: {**sp, 'second': {'same_lab': same, 'bust': False}},
+                          specs.dag_spec(max_nodes=7, backends=(b,), dup_bias=True, bust=False, storages=('local', 'fsspec_local', 'fsspec_local')),
+                          st.booleans())
+        core.run_hypothesis(rec, eng, strat, check_two_runs, max_examples=job['n'], seed=seed, shrink=(b == 'serial' or rec.tier == 'thorough'))
+        return
     if eng.startswith('after-abort:'):
         from hypothesis import strategies as st
         b = eng.split(':')[1]
@@ -101,4 +132,6 @@ def run_job(rec: core.Recorder, job: dict, seed: int) -> None:
 
 def replay(record: dict) -> core.CaseResult:
     case = record['case']
+    if 'second' in case and 'requested' not in case['second']:
+        return check_two_runs(case)
     return check_after_abort(case) if 'second' in case else check(case)
